@@ -2,6 +2,9 @@ import CantoVerif.Driver.Coinswap
 import CantoVerif.Driver.Onboarding
 import CantoVerif.Driver.Govshuttle
 import CantoVerif.Driver.Epochs
+import CantoVerif.Driver.Params
+import CantoVerif.Driver.Ante
+import CantoVerif.Driver.Signers
 /-! Line-protocol driver: `lake env lean --run Main.lean <suite> < trace` -/
 def main (args : List String) : IO UInt32 := do
   match args with
@@ -9,4 +12,7 @@ def main (args : List String) : IO UInt32 := do
   | ["onboarding"] => CV.Drv.Onboarding.main; return 0
   | ["govshuttle"] => CV.Drv.Govshuttle.main; return 0
   | ["epochs"] => CV.Drv.Epochs.main; return 0
+  | ["params"] => CV.Drv.Params.main; return 0
+  | ["ante"] => CV.Drv.Ante.main; return 0
+  | ["signers"] => CV.Drv.Signers.main; return 0
   | _ => IO.eprintln "usage: Main <suite>"; return 2
